@@ -356,4 +356,35 @@ theorem xlate_prefix (w : Bool) (layers : List Layer) (k bk : Key) (h : xlate w 
       · have := ih (p ++ k) h
         simp [viewPrefix, this]
 
+theorem trimPrefix_append (p k : Key) : trimPrefix p (p ++ k) = k := by
+  unfold trimPrefix
+  simp [hasPrefix_append]
+
+/-- what goes down through the views comes back up: the key of the returned entry is the key that was asked for -/
+theorem keyBack_xlate (w : Bool) (layers : List Layer) (k bk : Key) (h : xlate w layers k = some (.ok bk)) :
+    keyBack layers bk = k := by
+  induction layers generalizing k with
+  | nil => simp [xlate] at h; simp [keyBack, h]
+  | cons l r ih =>
+    cases l with
+    | cache => simp only [xlate] at h; simpa [keyBack] using ih k h
+    | enc =>
+      simp only [xlate] at h
+      split at h
+      · split at h
+        · exact absurd h (by simp)
+        · exact absurd h (by simp)
+        · simpa [keyBack] using ih k h
+      · simpa [keyBack] using ih k h
+    | pview p =>
+      simp only [xlate] at h
+      split at h
+      · exact absurd h (by simp)
+      · simp only [keyBack, ih (p ++ k) h, trimPrefix_append]
+    | lview p =>
+      simp only [xlate] at h
+      split at h
+      · exact absurd h (by simp)
+      · simp only [keyBack, ih (p ++ k) h, trimPrefix_append]
+
 end Obao.Listing
